@@ -63,6 +63,9 @@ def api_lookup(ck):
             req(api.R("GET", "/robustirc/v1/{%s}/messages" % k, cred), "lagging")
             req(api.R("POST", "/robustirc/v1/{%s:d}/message" % k, cred, "-", POSTB % (7000 + len(lag))), "lagging")
             req(api.R("DELETE", "/robustirc/v1/{%s}" % k, cred, "-", '{"Quitmessage":"bye"}'), "lagging")
+    for cred in ("a1", "a10"):                                      # an id newer than anything in the log, too
+        req(api.R("POST", "/robustirc/v1/{g:d}/message", cred, "-", POSTB % (7900 + len(lag))), "lagging")
+        req(api.R("DELETE", "/robustirc/v1/{g}", cred, "-", '{"Quitmessage":"bye"}'), "lagging")
     # the converse keeps the distinction honest: ids that really are dead answer "No such session" also while the FSM lags
     req(api.R("GET", "/robustirc/v1/{3}/messages", "a3"), "dead")
     req(api.R("DELETE", "/robustirc/v1/{3}", "a3", "-", '{"Quitmessage":"bye"}'), "dead")
@@ -103,7 +106,7 @@ def api_lookup(ck):
                                                   "cases": [line]}, concrete=True)
     # ---- the lagging node
     lobs = res[1][2:]
-    nl, dist = 0, {}
+    nl, dist, gone = 0, {}, []
     for i, want in sorted(expect.items()):
         o = lobs[i] if i < len(lobs) else {}
         if o.get("op") != "R" or "status" not in o:
@@ -113,16 +116,12 @@ def api_lookup(ck):
         nl += 1
         path, status, cls = api.unhx(o["p"]).decode("latin-1"), int(o["status"]), o["class"]
         dist["%s/%s/%d" % (want, cls, status)] = dist.get("%s/%s/%d" % (want, cls, status), 0) + 1
-        if want == "lagging" and cls != "notyet":
-            minimal = [t for j, t in enumerate(lag) if j not in expect or j == i]
-            ck.violation("c17:api:live-session-reported-gone", {
-                "what": "%s %s for a session whose CreateSession entry is committed to the log but not yet applied (the state machine lags behind the log) was "
-                        "answered %d %s; the bridge treats 'No such session' as 'session gone' and gives a LIVE session up — expected 'Session not yet seen' "
-                        "(after the state machine caught up the same session is served)" % (o["m"], path, status, cls),
-                "cases": ["api lag " + " ".join(minimal)], "how_to_replay": "bin/check C17 (API lag scenario: ops A:close, E, M, R, A:open of harness/go/main/zz_verif_api_test.go)"},
-                concrete=True)
-            break
-        if want == "dead" and cls != "nosuch":
+        # classified by STATUS, the way the bridge does (robustsession.go gives the session up on ANY 404, whatever the body says):
+        # an id that is committed but not applied, or newer than anything applied, must get a 5xx (retry) on every route
+        if want == "lagging" and not (500 <= status <= 599):
+            gone.append((i, o["m"], path, status, cls))
+            continue
+        if want == "dead" and status != 404:
             ck.violation("c17:api:deleted-not-gone", {"what": "%s %s for a dead id while the state machine lags answered %d %s, expected 404 'No such session'" % (o["m"], path, status, cls),
                                                       "cases": [lagline]}, concrete=True)
             break
@@ -133,6 +132,18 @@ def api_lookup(ck):
         if want == "refused" and cls == "handled":
             ck.violation("c17:api:handled-without-secret", {"what": "%s %s handled with another session's secret" % (o["m"], path), "cases": [lagline]}, concrete=True)
             break
+    if gone:
+        i, m, path, status, cls = gone[0]
+        minimal = [t for j, t in enumerate(lag) if j not in expect or j == i]
+        routes = sorted(set("%s -> %d" % (g[1], g[3]) for g in gone))
+        ck.violation("c17:api:live-session-reported-gone", {
+            "what": "%s %s for a session whose CreateSession entry is committed to the log but not yet applied (the state machine lags behind the log) was "
+                    "answered %d %s; the bridge gives a session up on any 404 — a LIVE session is reported gone; expected a 5xx 'Session not yet seen' "
+                    "(after the state machine caught up the same session is served).  All offending requests of the scenario: %d (%s)"
+                    % (m, path, status, cls, len(gone), ", ".join(routes)),
+            "offending": [{"method": g[1], "path": g[2], "status": g[3], "class": g[4]} for g in gone],
+            "cases": ["api lag " + " ".join(minimal)], "how_to_replay": "bin/check C17 (API lag scenario: ops A:close, E, M, R, A:open of harness/go/main/zz_verif_api_test.go)"},
+            concrete=True)
     ck.cov["api_lag_requests"] = nl
     ck.cov["api_lag_distribution"] = dist
     ck.cov["api_lookup_requests"] = n
